@@ -17,7 +17,8 @@ def consumed : List ReadRes → List ReadRes
 /-- every scripted write accepts a whole buffer and reports no error -/
 def noWriteFault (ws : List WriteRes) : Prop := ∀ w ∈ ws, w.err = none ∧ bufLen ≤ w.accepted
 
-def allDlOk (ds : List DlRes) : Prop := ∀ d ∈ ds, d = .ok
+/-- every deadline call succeeds, directly or through the `SetReadDeadline` fallback -/
+def allDlOk (ds : List DlRes) : Prop := ∀ d ∈ ds, d.succeeds = true
 
 /-- `io.Reader` contract: a read returns at most `len(buf)` bytes -/
 def conforming (rs : List ReadRes) : Prop := ∀ r ∈ rs, r.bytes.length ≤ bufLen
@@ -48,7 +49,7 @@ theorem allBytes_append (a b : List ReadRes) : allBytes (a ++ b) = allBytes a ++
 
 /-! ### deadlines -/
 
-theorem popDl_ok (ds : List DlRes) (h : allDlOk ds) : (popDl ds).1 = .ok ∧ allDlOk (popDl ds).2 := by
+theorem popDl_ok (ds : List DlRes) (h : allDlOk ds) : (popDl ds).1.succeeds = true ∧ allDlOk (popDl ds).2 := by
   cases ds with
   | nil => exact ⟨rfl, by intro d hd; cases hd⟩
   | cons d t =>
@@ -61,16 +62,17 @@ theorem armBoth_ok (ds : List DlRes) (h : allDlOk ds) :
     ∃ evs ds', armBoth ds = (evs, none, ds') ∧ allDlOk ds' := by
   obtain ⟨h1, h1'⟩ := popDl_ok ds h
   obtain ⟨h2, h2'⟩ := popDl_ok (popDl ds).2 h1'
-  refine ⟨[.dl true true, .dl false true], (popDl (popDl ds).2).2, ?_, h2'⟩
+  refine ⟨[.dl true true (popDl ds).1.viaFallback, .dl false true (popDl (popDl ds).2).1.viaFallback],
+    (popDl (popDl ds).2).2, ?_, h2'⟩
   simp [armBoth, arm, h1, h2]
 
 /-- shape of the events of `armBoth` -/
 theorem armBoth_cases (ds : List DlRes) :
-    (∃ ds', armBoth ds = ([.dl true false], some true, ds')) ∨
-    (∃ ds', armBoth ds = ([.dl true true, .dl false false], some false, ds')) ∨
-    (∃ ds', armBoth ds = ([.dl true true, .dl false true], none, ds')) := by
+    (∃ f ds', armBoth ds = ([.dl true false f], some true, ds')) ∨
+    (∃ f1 f2 ds', armBoth ds = ([.dl true true f1, .dl false false f2], some false, ds')) ∨
+    (∃ f1 f2 ds', armBoth ds = ([.dl true true f1, .dl false true f2], none, ds')) := by
   unfold armBoth arm
-  cases h1 : (popDl ds).1 <;> cases h2 : (popDl (popDl ds).2).1 <;> simp [h1, h2]
+  cases h1 : (popDl ds).1.succeeds <;> cases h2 : (popDl (popDl ds).2).1.succeeds <;> simp [h1, h2]
 
 /-! ### stopsAtFailure -/
 
@@ -157,7 +159,7 @@ theorem loop_prefix (rs : List ReadRes) : ∀ ws ds, (loop rs ws ds).delivered <
       cases er with
       | some e => simp
       | none =>
-        rcases armBoth_cases ds with ⟨d', h⟩ | ⟨d', h⟩ | ⟨d', h⟩ <;> simp [h]
+        rcases armBoth_cases ds with ⟨f, d', h⟩ | ⟨f1, f2, d', h⟩ | ⟨f1, f2, d', h⟩ <;> simp [h]
         exact ih ws' d'
     simp only [loop, allBytes_cons]
     split
@@ -188,7 +190,7 @@ theorem loop_counted (rs : List ReadRes) : ∀ ws ds, (loop rs ws ds).counted = 
       cases er with
       | some e => simp
       | none =>
-        rcases armBoth_cases ds with ⟨d', h⟩ | ⟨d', h⟩ | ⟨d', h⟩ <;> simp [h]
+        rcases armBoth_cases ds with ⟨f, d', h⟩ | ⟨f1, f2, d', h⟩ | ⟨f1, f2, d', h⟩ <;> simp [h]
         exact ih ws' d'
     simp only [loop]
     split
@@ -238,7 +240,7 @@ theorem afterWrite_stops (er : Option Err) (ds : List DlRes) (k : List DlRes →
   cases er with
   | some e => simp [stopsAtFailure]
   | none =>
-    rcases armBoth_cases ds with ⟨d', h⟩ | ⟨d', h⟩ | ⟨d', h⟩ <;> simp only [h]
+    rcases armBoth_cases ds with ⟨f, d', h⟩ | ⟨f1, f2, d', h⟩ | ⟨f1, f2, d', h⟩ <;> simp only [h]
     · simp [stopsAtFailure]
     · simp [stopsAtFailure, Ev.ok]
     · rw [prepend_trace]
@@ -298,7 +300,7 @@ theorem loop_trace_bound (rs : List ReadRes) : ∀ ws ds, (loop rs ws ds).trace.
       cases er with
       | some e => simp
       | none =>
-        rcases armBoth_cases ds with ⟨d', h⟩ | ⟨d', h⟩ | ⟨d', h⟩ <;> simp [h]
+        rcases armBoth_cases ds with ⟨f, d', h⟩ | ⟨f1, f2, d', h⟩ | ⟨f1, f2, d', h⟩ <;> simp [h]
         · omega
         · have := ih ws' d'; omega
     simp only [loop]
@@ -312,12 +314,12 @@ theorem loop_trace_bound (rs : List ReadRes) : ∀ ws ds, (loop rs ws ds).trace.
 
 theorem run_prefix (s : Script) : (run s).delivered <+: allBytes s.reads := by
   unfold run
-  rcases armBoth_cases s.dls with ⟨d', h⟩ | ⟨d', h⟩ | ⟨d', h⟩ <;> simp [h]
+  rcases armBoth_cases s.dls with ⟨f, d', h⟩ | ⟨f1, f2, d', h⟩ | ⟨f1, f2, d', h⟩ <;> simp [h]
   exact loop_prefix _ _ _
 
 theorem run_counted (s : Script) : (run s).counted = (run s).delivered.length := by
   unfold run
-  rcases armBoth_cases s.dls with ⟨d', h⟩ | ⟨d', h⟩ | ⟨d', h⟩ <;> simp [h]
+  rcases armBoth_cases s.dls with ⟨f, d', h⟩ | ⟨f1, f2, d', h⟩ | ⟨f1, f2, d', h⟩ <;> simp [h]
   exact loop_counted _ _ _
 
 theorem run_complete (s : Script) (hw : noWriteFault s.writes) (hd : allDlOk s.dls) (hc : conforming s.reads) :
@@ -329,7 +331,7 @@ theorem run_complete (s : Script) (hw : noWriteFault s.writes) (hd : allDlOk s.d
 
 theorem run_stops (s : Script) : stopsAtFailure (run s).trace := by
   unfold run
-  rcases armBoth_cases s.dls with ⟨d', h⟩ | ⟨d', h⟩ | ⟨d', h⟩ <;> simp only [h]
+  rcases armBoth_cases s.dls with ⟨f, d', h⟩ | ⟨f1, f2, d', h⟩ | ⟨f1, f2, d', h⟩ <;> simp only [h]
   · simp [stopsAtFailure]
   · simp [stopsAtFailure, Ev.ok]
   · rw [prepend_trace]
@@ -337,7 +339,7 @@ theorem run_stops (s : Script) : stopsAtFailure (run s).trace := by
 
 theorem run_trace_bound (s : Script) : (run s).trace.length ≤ 4 * s.reads.length + 3 := by
   unfold run
-  rcases armBoth_cases s.dls with ⟨d', h⟩ | ⟨d', h⟩ | ⟨d', h⟩ <;> simp only [h]
+  rcases armBoth_cases s.dls with ⟨f, d', h⟩ | ⟨f1, f2, d', h⟩ | ⟨f1, f2, d', h⟩ <;> simp only [h]
   · simp
   · simp
   · rw [prepend_trace]
